@@ -523,7 +523,17 @@ func Dup() []*Schema {
 		{Name: "Params", Fields: []Field{{Num: 3, Kind: Bytes, Shape: Singular}, {Num: 1, IsMsg: true, Msg: 2, Shape: Repeated}}},
 		{Name: "B", Fields: []Field{{Num: 7, Kind: Double, Shape: Singular}}},
 		{Name: "A", Fields: []Field{{Num: 5, Kind: Uint64, Shape: Oneof, Group: 0}, {Num: 6, IsMsg: true, Msg: 1, Shape: Oneof, Group: 0}}},
+		// uses the SAME-NAMED types of the other Go package next to its own (type tables keyed by a name
+		// without the import path confuse them)
+		{Name: "User", Fields: []Field{
+			{Num: 1, IsMsg: true, Msg: 0, Shape: Singular},
+			{Num: 2, IsMsg: true, Extern: "vc.dupa.Params", Shape: Singular},
+			{Num: 3, IsMsg: true, Extern: "vc.dupa.B", Shape: Repeated},
+			{Num: 4, IsMsg: true, Msg: 1, Shape: Repeated},
+			{Num: 5, IsMsg: true, Extern: "vc.dupa.A", Shape: Map, Key: String},
+		}},
 	}
+	b.Imports = []string{"verifcorpus/dupa/dupa.proto"}
 	return []*Schema{a, b}
 }
 
@@ -559,4 +569,42 @@ func (r *Rand) Shuffle(n int, swap func(i, j int)) {
 	for i := n - 1; i > 0; i-- {
 		swap(i, r.Intn(i+1))
 	}
+}
+
+// Alias: two Go packages whose import paths end in the same element (…/ax/v1 and …/ay/v1, so that a file using
+// both must alias one of them) and two files of ONE Go package that import different subsets of them. protogen
+// assigns import aliases per generated file; anything remembered per Go package across files gets it wrong.
+// The last two are generated in one request (GroupOf).
+func Alias() []*Schema {
+	mk := func(id, dir, pkg string, msgs []Msg, imports []string) *Schema {
+		sc := corpusSchema(id)
+		sc.Dir = dir
+		sc.Package = pkg
+		sc.GoPkg = "github.com/cosmos/cosmos-proto/internal/verifcorpus/" + dir
+		sc.Msgs = msgs
+		sc.Imports = imports
+		return sc
+	}
+	ax := mk("ax", "ax/v1", "vc.ax.v1", []Msg{{Name: "Price", Fields: []Field{{Num: 1, Kind: Int64, Shape: Singular}}}}, nil)
+	ay := mk("ay", "ay/v1", "vc.ay.v1", []Msg{{Name: "Price", Fields: []Field{{Num: 1, Kind: String, Shape: Singular}}}, {Name: "Tag", Fields: []Field{{Num: 1, Kind: Bool, Shape: Singular}}}}, nil)
+	one := mk("appone", "app", "vc.app", []Msg{{Name: "One", Fields: []Field{
+		{Num: 1, IsMsg: true, Extern: "vc.ax.v1.Price", Shape: Oneof, Group: 0},
+		{Num: 2, IsMsg: true, Extern: "vc.ay.v1.Price", Shape: Oneof, Group: 0},
+		{Num: 3, IsMsg: true, Extern: "vc.ay.v1.Price", Shape: Map, Key: String},
+		{Num: 4, IsMsg: true, Extern: "vc.ax.v1.Price", Shape: Repeated},
+	}}}, []string{"verifcorpus/ax/v1/ax.proto", "verifcorpus/ay/v1/ay.proto"})
+	two := mk("apptwo", "app", "vc.app", []Msg{{Name: "Two", Fields: []Field{
+		{Num: 1, IsMsg: true, Extern: "vc.ay.v1.Price", Shape: Map, Key: Int32},
+		{Num: 2, IsMsg: true, Extern: "vc.ay.v1.Tag", Shape: Oneof, Group: 0},
+		{Num: 3, Kind: String, Shape: Oneof, Group: 0},
+		{Num: 4, IsMsg: true, Extern: "vc.ay.v1.Price", Shape: Singular},
+	}}}, []string{"verifcorpus/ay/v1/ay.proto"})
+	two.NoEnum = true
+	three := mk("appthree", "app", "vc.app", []Msg{{Name: "Three", Fields: []Field{
+		{Num: 1, IsMsg: true, Extern: "vc.ax.v1.Price", Shape: Map, Key: Bool},
+		{Num: 2, IsMsg: true, Extern: "vc.ax.v1.Price", Shape: Oneof, Group: 0},
+		{Num: 3, Kind: Bytes, Shape: Oneof, Group: 0},
+	}}}, []string{"verifcorpus/ax/v1/ax.proto"})
+	three.NoEnum = true
+	return []*Schema{ax, ay, one, two, three}
 }
